@@ -41,6 +41,7 @@ class solved_maze_init:
 class maze_dataset_init:
     params = dict(self=T.RecT("MazeDataset"), cfg=CFG, mazes=T.ListT(SOLVED), generation_metadata_collected=T.Const(None))
     ensures = {
+        "cfg": "same_value(result.cfg, cfg)",
         "mazes.len": "len(result.mazes) == len(mazes)",
         "mazes": "forall(lambda k: same_grid(result.mazes[k].connection_list, mazes[k].connection_list) and same_grid(result.mazes[k].solution, mazes[k].solution)"
         " and result.mazes[k].start_pos[0] == mazes[k].start_pos[0] and result.mazes[k].start_pos[1] == mazes[k].start_pos[1]"
